@@ -220,6 +220,39 @@ lex_blockcomment_end(const int *c)
 	return 0;
 }
 
+/* ------------------------------------------------------------------ 6.4p3 / 5.1.1.2p1(3): what separates tokens
+ * White space (blanks; new-line is kept as a token in phases 1-4) and comments may precede a token; each comment is
+ * replaced by one space.  lex_skip(c) = index of the first character of the first token of c[], i.e. after every
+ * leading blank and comment; -1 if a block comment is not terminated (6.4.9: then there is no token sequence at all).
+ * c[] must be readable up to index LEX_SKIPMAX + LEX_CMAX + 1 (LEX_EOF-filled past the end of the file).
+ */
+#define LEX_SKIPMAX 10
+static inline int
+lex_skip_step(const int *c, int p)
+{
+	int e;
+
+	if (lex_isblank(c[p]))
+		return p + 1;
+	if (c[p] == '/' && c[p + 1] == '/')
+		return p + 1 + lex_linecomment_end(c + p + 1);
+	if (c[p] == '/' && c[p + 1] == '*') {
+		e = lex_blockcomment_end(c + p + 1);
+		return e ? p + 1 + e + 1 : -1;
+	}
+	return p;
+}
+
+static inline int
+lex_skip(const int *c)
+{
+	int p = 0;
+#define LEX_SKSTEP if (p >= 0 && p < LEX_SKIPMAX) p = lex_skip_step(c, p);
+	LEX_SKSTEP LEX_SKSTEP LEX_SKSTEP LEX_SKSTEP LEX_SKSTEP LEX_SKSTEP LEX_SKSTEP LEX_SKSTEP LEX_SKSTEP LEX_SKSTEP
+#undef LEX_SKSTEP
+	return p;
+}
+
 /* ------------------------------------------------------------------ 6.4.4.4 / 6.4.5 encoding prefixes
  * character-constant: ' L' u' U'   (C23 N2418, implemented per /repo/doc/c23.md: u8')
  * string-literal:     " u8" u" U" L"
